@@ -29,7 +29,7 @@ RULE = ('family = one dataset src.map(u0).map(fresh).cache(keep_mem_free=K) (fre
         'call counter per index, memory state. Non-trivial = at least one access hit '
         'an already frozen example or the memory fault fired; distinct = distinct '
         '(dataset, history).')
-PROBES = ['held_iterator_met_entry_cached_meanwhile', 'second_cache_created_after_first_crossed',
+PROBES = ['eager_cache_of_duplicate_keys_without_length', 'two_clients_same_index_at_once', 'held_iterator_met_entry_cached_meanwhile', 'second_cache_created_after_first_crossed',
           'cache_hit_after_threshold', 'cache_miss_after_threshold',
           'negative_index_hits_positive_entry', 'key_hits_index_entry',
           'copy_shares_cache', 'prefetch_worker_filled_cache',
@@ -58,7 +58,14 @@ class Mem:
 
 
 def _fake_virtual_memory():
-    return collections.namedtuple('svmem', 'total available')(Mem.total, Mem.available)
+    # page-cache heavy host: 'free' is far below 'available' (the library must
+    # look at 'available')
+    sv = collections.namedtuple('svmem', 'total available percent used free active '
+                                'inactive buffers cached shared slab')
+    free = min(Mem.available, 512 * 1024 ** 2)
+    used = Mem.total - Mem.available
+    return sv(Mem.total, Mem.available, round(100.0 * used / Mem.total, 1), used, free,
+              0, 0, 0, Mem.available - free, 0, 0)
 
 
 class NoneDetFn(W.MapFn):
@@ -92,13 +99,15 @@ def gen_ops(rng, n, dict_source, k, flap):
     ops = []
     kinds = ['get', 'get', 'get', 'getneg', 'npget', 'slice_iter', 'iter', 'iter_k',
              'copy_get', 'copy_iter', 'fcopy_get', 'prefetch1', 'prefetchw',
-             'mutate', 'mutate', 'it_open', 'it_next', 'it_next', 'it_next']
+             'mutate', 'mutate', 'it_open', 'it_next', 'it_next', 'it_next', 'concurrent_get']
     if dict_source:
         kinds += ['key', 'key', 'items_iter']
     for _ in range(k):
         op = rng.choice(kinds)
         if op in ('get', 'getneg', 'npget', 'key', 'copy_get', 'fcopy_get'):
             ops.append([op, rng.randrange(n)])
+        elif op == 'concurrent_get':
+            ops.append([op, [rng.randrange(n), rng.randrange(1 << 20)]])
         elif op == 'slice_iter':
             a = rng.randrange(0, n)
             ops.append([op, [a, rng.randrange(a, n + 1)]])
@@ -144,6 +153,8 @@ def gen(rng, tier, index):
         eager = rng.random() < 0.12
         c = dict(base, flap=flap, eager=eager)
         c['ops'] = gen_ops(rng, n, src == 'dict', rng.randrange(6, 23), flap)
+        if eager and rng.random() < 0.35:
+            c['eager_dup'] = True
         if eager:
             c['ops'] = [o for o in c['ops'] if o[0] in
                         ('get', 'getneg', 'key', 'slice_iter', 'iter', 'iter_k',
@@ -191,6 +202,7 @@ class Model:
     def __init__(self, case):
         self.case = case
         self.frozen = {}
+        self.unknown = set()    # after two overlapping first accesses: whichever was stored
         self.maybe = {}
         self.ncalls = collections.Counter()
         self.last = {}
@@ -230,6 +242,12 @@ class Model:
         """one access to index i returned v (normalised); `before` = calls of i
         before the access."""
         new = self.ncalls[i] - before
+        if i in self.unknown:
+            self.unknown.discard(i)
+            if new == 0:
+                self.frozen[i] = v      # whatever was stored is now the frozen value
+                return
+            # nothing had been stored: an ordinary first computation
         if i in self.frozen:
             if self.was_low:
                 self.probes['cache_hit_after_threshold'] = 1
@@ -392,6 +410,8 @@ def _run_lazy(case, ds, ctx, m):
                     hits += 1
                     m.probes['held_iterator_met_entry_cached_meanwhile'] = 1
                 m.access(i, nv, before, 'held_iterator')
+        elif op == 'concurrent_get':
+            _concurrent_get(case, ds, ctx, m, arg[0], arg[1], fired, trace)
         elif op == 'second_cache':
             held = None
             up2 = _upstream(case)
@@ -450,6 +470,87 @@ def _run_lazy(case, ds, ctx, m):
                 fired['client_mutation'] += 1
                 m.probes['mutation_then_reread'] = 1
     return {'fired': dict(fired), 'hits': hits, 'trace': trace, 'models': models}
+
+
+def _concurrent_get(case, ds, ctx, m, i, seed, fired, trace):
+    """Two client threads ask for the same index at the same time (thread
+    simulator, pre-emption inside lazy_dataset/core.py).  The property judges
+    sequences of accesses; for this overlap only the part that holds for any
+    access is demanded: both get a value the pipeline produces for that index,
+    a frozen value stays the frozen value, nobody gets an exception."""
+    import threading
+    m.absorb(ctx.log)
+    before = m.ncalls[i]
+    was_frozen = m.frozen.get(i)
+    sim = S.Sim({'policy': 'random', 'seed': seed}, trace_files=[ldc.__file__])
+    ctx.sim = sim
+    sim.log = ctx._log
+    sim.seq = ctx._seq
+    got = []
+
+    def client():
+        try:
+            got.append(('ok', W.norm(ds[i])))
+        except Exception as e:
+            got.append(('exc', '%s: %s' % (type(e).__name__, str(e)[:80])))
+
+    try:
+        with S.simulation(sim):
+            try:
+                ts = [threading.Thread(target=client) for _ in range(2)]
+                for t in ts:
+                    t.start()
+                for t in ts:
+                    t.join()
+                sim.drain()
+            except S.SimAbort:
+                pass
+    finally:
+        ctx._seq = sim.seq
+        ctx.sim = None
+    m.probes['two_clients_same_index_at_once'] = 1
+    fired['concurrent_same_index'] += 1
+    if sim.failure:
+        m.bad('hang', 'hang:concurrent_same_index', 'two concurrent accesses: %s' % sim.failure)
+        return
+    produced = set()
+    # every value produced for i so far (fresh: any nonce of a 'fresh' event)
+    for e in ctx.log:
+        if e[2] == 'fresh' and e[4][0] == i:
+            v = {'f': 'fresh', 'x': {'f': 'u0', 'x': {'src': i}}, 'nonce': e[5]}
+            produced.add(repr(['__tuple__', v, ['m']] if case.get('tuple') else v))
+    m.absorb(ctx.log)
+    for kind, v in got:
+        trace.append(('concurrent', i, v))
+        if kind == 'exc':
+            m.bad('access_raised', 'access_raised:concurrent_same_index',
+                  'one of two concurrent accesses to index %d raised %s' % (i, v))
+            return
+        if was_frozen is not None:
+            if v != was_frozen:
+                m.bad('cached_value_changed', 'cached_value_changed:concurrent_same_index',
+                      'index %d is frozen as %s but a concurrent access returned %s'
+                      % (i, W.short(was_frozen, 80), W.short(v, 80)))
+                return
+        elif case['fresh']:
+            if repr(v) not in produced:
+                m.bad('returned_value_not_produced', 'returned_value_not_produced:concurrent_same_index',
+                      'a concurrent access to index %d returned %s, which the pipeline never '
+                      'produced' % (i, W.short(v, 80)))
+                return
+        elif v != m.expected_det(i):
+            m.bad('returned_value_not_produced', 'returned_value_not_produced:concurrent_same_index',
+                  'a concurrent access to index %d returned %s' % (i, W.short(v, 80)))
+            return
+    if was_frozen is not None and m.ncalls[i] != before:
+        m.bad('recomputed_cached_example', 'recomputed_cached_example:concurrent_same_index',
+              'index %d was cached but two concurrent accesses ran the upstream pipeline again' % i)
+        return
+    if was_frozen is None:
+        # either of the two values may have been stored (or none, if memory is
+        # low): the next sequential access decides
+        m.maybe.pop(i, None)
+        m.unknown.add(i)
 
 
 def _upstream(case):
@@ -528,7 +629,76 @@ def _prefetch_iteration(case, ds, ctx, m, w, b, seed, flip, thr, fired, trace):
     m.ncalls.update({})
 
 
+class _AlwaysTrue:
+    def __call__(self, x):
+        return True
+
+
+def _run_eager_dup(case, up, ctx, m):
+    """eager cache of a dataset with duplicate keys and without a length
+    (concatenated with itself, then lazily filtered): content and order of the
+    snapshot are those of one iteration at call time"""
+    n = case['n']
+    fired = collections.Counter()
+    trace = []
+    m.absorb(ctx.log)
+    pos0 = len(ctx.log)
+    src_ds = up.concatenate(up).filter(_AlwaysTrue(), lazy=True)
+    ds = src_ds.cache(lazy=False)
+    m.absorb(ctx.log)
+    # the values in the order in which they were computed at call time
+    snapshot = []
+    for e in ctx.log[pos0:]:
+        if case['fresh'] and e[2] == 'fresh':
+            v = {'f': 'fresh', 'x': {'f': 'u0', 'x': {'src': e[4][0]}}, 'nonce': e[5]}
+            snapshot.append(['__tuple__', v, ['m']] if case.get('tuple') else v)
+        elif not case['fresh'] and e[2] == 'call' and e[3] == 'det':
+            snapshot.append(m.expected_det(e[4][0]))
+    if [W.src_ids(x)[0] if W.src_ids(x) else None for x in snapshot] != \
+            [i if not (case.get('nonevals') and i % 3 == 0) else None for i in list(range(n)) * 2]:
+        m.bad('eager_cache_call_count', 'eager_cache_call_count:duplicate_keys',
+              'cache(lazy=False) of a 2x%d dataset computed %d examples' % (n, len(snapshot)))
+    calls_at_build = sum(m.ncalls.values())
+    try:
+        got_len = len(ds)
+    except TypeError:
+        got_len = None
+    if got_len != 2 * n:
+        m.bad('eager_snapshot_changed', 'eager_snapshot_changed:length:duplicate_keys',
+              'eager cache of %d examples (keys occur twice) has length %r' % (2 * n, got_len))
+    hits = 0
+    for op, arg in case['ops']:
+        if m.violations:
+            break
+        if op in ('get', 'getneg', 'npget') and got_len:
+            j = (arg + (n if op != 'get' else 0)) % got_len
+            v = W.norm(ds[j])
+            hits += 1
+            trace.append(('index', j, v))
+            if v != snapshot[j]:
+                m.bad('eager_snapshot_changed', 'eager_snapshot_changed:index:duplicate_keys',
+                      'position %d of the eager cache is %s, snapshot at call time %s'
+                      % (j, W.short(v, 80), W.short(snapshot[j], 80)))
+        elif op in ('iter', 'iter_k'):
+            got = [W.norm(x) for x in ds]
+            hits += 1
+            if got != snapshot:
+                m.bad('eager_snapshot_changed', 'eager_snapshot_changed:iteration:duplicate_keys',
+                      'the eager cache iterates %s, snapshot at call time %s'
+                      % (W.short(got, 120), W.short(snapshot, 120)))
+        m.absorb(ctx.log)
+        if sum(m.ncalls.values()) != calls_at_build:
+            m.bad('eager_cache_recomputed', 'eager_cache_recomputed',
+                  'an access to the eager cache ran the upstream pipeline again')
+    fired['eager'] += 1
+    fired['eager_duplicate_keys_without_length'] += 1
+    m.probes['eager_cache_of_duplicate_keys_without_length'] = 1
+    return {'fired': dict(fired), 'hits': hits, 'trace': trace}
+
+
 def _run_eager(case, up, ctx, m):
+    if case.get('eager_dup'):
+        return _run_eager_dup(case, up, ctx, m)
     n = case['n']
     fired = collections.Counter()
     trace = []
